@@ -64,5 +64,20 @@ for _ in range(400 if big else 80):
 for _ in range(100 if big else 30):
     p = nextprime(rnd.getrandbits(rnd.choice((40, 50, 60, 63))) | (1 << 39))
     add(p, [p])
+# three or more prime factors all above the trial-division range (541): Pollard's rho may return a composite divisor that has to be split again
+small = [p for p in range(547, 700) if isprime(p)]
+triples = [(a, b, c) for i, a in enumerate(small) for j, b in enumerate(small) if j > i for c in small[j + 1:]]
+rnd.shuffle(triples)
+for a, b, c in triples[: (len(triples) if big else 700)]:
+    add(a * b * c, [a, b, c])
+for _ in range(600 if big else 120):
+    k = rnd.choice((3, 3, 4, 5))
+    ps, n = [], 1
+    for _j in range(k):
+        p = nextprime(rnd.randint(542, rnd.choice((1000, 5000, 70000, 2 ** 21))))
+        if n * p < 2 ** 64:
+            n *= p
+            ps.append(p)
+    add(n, sorted(ps))
 for n, fs in sorted(out.items()):
     print(n, *fs)
